@@ -23,6 +23,16 @@ def twin(id, prop, file, func, old, new, why='', also=None):
     CORPUS.append(Edit(id, prop, file, func, old, new, 'silent', None, why, also))
 
 
+def dfire(id, prop, diff, rule=None, why=''):
+    """A kept patch (path relative to /verif) that must make prop's checker fire."""
+    CORPUS.append(Edit(id, prop, '@diff', None, diff, '', 'fire', rule, why, None))
+
+
+def dtwin(id, prop, diff, why=''):
+    """A kept behaviour-preserving patch: prop's checker ('*': every checker) must stay silent."""
+    CORPUS.append(Edit(id, prop, '@diff', None, diff, '', 'silent', None, why, None))
+
+
 # ----------------------------------------------------------------------------- C02
 fire('c02-r-2to4', 'C02', M, 'Method.CalculateGlobalR',
      'globalR = 2 * deltax - 4 * (zr - self.Z[v]) / (r * self.M[v])',
@@ -1097,3 +1107,13 @@ fire('c06-right-not-requeued', 'C06', SD, 'SearchData.InsertDataItem',
      '        if flag:\n            self._RGlobalQueue.Insert(rightDataItem.globalR, rightDataItem)\n', '', 'R06.1')
 fire('c19-right-not-requeued', 'C19', SD, 'SearchData.InsertDataItem',
      '        if flag:\n            self._RGlobalQueue.Insert(rightDataItem.globalR, rightDataItem)\n', '', 'R19.1')
+
+# ----------------------------------------------------------------------------- kept patches (seeded/ and seeded/twins/)
+dtwin('g-evolvent-lazy-caches-coherent', '*', 'seeded/twins/evolvent-lazy-coefficient-caches-coherent.diff',
+      why='vectorised transforms with lazily cached coefficients, both caches invalidated by SetBounds')
+dfire('c17-stale-inverse-cache', 'C17', 'seeded/r3-C17-stale-inverse-coefficient-cache/patch.diff', 'R17.6')
+dfire('c09-stale-inverse-cache', 'C09', 'seeded/r3-C17-stale-inverse-coefficient-cache/patch.diff', 'R09.2')
+dtwin('c05-stale-inverse-cache-forward-unaffected', 'C05', 'seeded/r3-C17-stale-inverse-coefficient-cache/patch.diff',
+      why='only the inverse coefficient cache is stale: the forward map (C05) is unaffected')
+dtwin('c07-stale-inverse-cache-forward-unaffected', 'C07', 'seeded/r3-C17-stale-inverse-coefficient-cache/patch.diff',
+      why='only the inverse coefficient cache is stale: the forward map (C07) is unaffected')
